@@ -9,6 +9,8 @@ run_batch() {
 }
 r1=$(ls seeded | grep -E '^C[0-9]+$')
 r2=$(ls seeded | grep -E '^C[0-9]+_r2$')
+r3=$(ls seeded | grep -E '^C[0-9]+_r3$')
 run_batch $r1
 run_batch $r2
+run_batch $r3
 sort /tmp/mw/detect_all.txt
